@@ -179,11 +179,20 @@ func (st *State) havocLogOpaque() {
 	st.havocLog()
 	// only events of kind Other were appended: every other counter is unchanged
 	var eqs []string
-	for k := 1; k <= 11; k++ {
+	for _, k := range []int{1, 2, 3, 4, 5, 6, 7, 8, 9, 10, 11, 13} {
 		eqs = append(eqs, fmt.Sprintf("(= (select %s %d) (select %s %d)) (= (select %s %d) (select %s %d))", st.heap("CNT", cntSort), k, oldCnt, k, st.heap("CNC", cntSort), k, oldCnc, k))
 	}
 	st.assume("(and " + strings.Join(eqs, " ") + ")")
 	st.assume(fmt.Sprintf("(forall ((k!p Int)) (! (=> (and (<= %s k!p) (< k!p %s)) (= (ev_kind (select %s k!p)) %d)) :pattern ((select %s k!p))))", oldLen, st.evlen, st.evlog, evKinds["Other"], st.evlog))
+}
+
+// ghostSorted stores a ghost value of an arbitrary sort (merge uses the recorded sort).
+func (st *State) ghostSorted(name, srt, term string) {
+	st.ghost[name] = term
+	if st.c.ghostSorts == nil {
+		st.c.ghostSorts = map[string]string{}
+	}
+	st.c.ghostSorts[name] = srt
 }
 
 func (st *State) havocAlloc() {
@@ -326,6 +335,9 @@ func mergeStates(c *Ctx, sts []*State) *State {
 		srt := "Int"
 		if strings.HasPrefix(g, "b:") {
 			srt = "Bool"
+		}
+		if gs, ok := c.ghostSorts[g]; ok {
+			srt = gs
 		}
 		m.ghost[g] = pick(g, srt, vals)
 	}
